@@ -58,7 +58,7 @@ func main() {
 			panic("custom element table changed")
 		}
 	}
-	total := c.Pick(4000, 120000)
+	total := c.Pick(4000, 200000)
 	per := total / c.NBatch
 	from, to := c.Range(per)
 	for k := from; k < to; k++ {
